@@ -43,9 +43,18 @@ def nontrivial(c, o):
 def run(tier, seed, replay=None):
     chk = core.Check("C10", tier, seed)
     proof = core.proof_step("C10", thorough=(tier == "thorough"))
-    cases = [replay["replay"]["case"]] if replay else gen(seed, tier)
-    outs, corr, orac = flow.differential(chk, "synth", cases, sy.to_coq, sy.IMPORTS, run_fn="run_c10", describe=sy.describe,
-                                          component="create_node / deciders", kind=lambda c: c["decider"][0], chunk=40)
+    rep_replay = bool(replay and "case_full" in replay["replay"])
+    cases = [] if rep_replay else [replay["replay"]["case"]] if replay else gen(seed, tier)
+    outs, corr, orac = (None, [], []) if rep_replay else flow.differential(
+        chk, "synth", cases, sy.to_coq, sy.IMPORTS, run_fn="run_c10", describe=sy.describe,
+        component="create_node / deciders", kind=lambda c: c["decider"][0], chunk=40)
+    # every operation of every representation (create / map / mutate / crossover, incl. the stack representation's mapping,
+    # on grammars that mention an abstract symbol without productions): productions and all analysis results as before
+    from harness.props import c06, rep_common as rc
+    rcases = [replay["replay"]["case_full"]] if rep_replay else [] if replay else rc.gen_variation_cases(flow.rng(seed, "c10r"), tier)
+    ph = c06.rep_phase(chk, "C10", "run_c10r", (), rcases, component="grammar before / after representation operations") if rcases else None
+    if rep_replay and ph:
+        print("replayed", len(ph["ecs"]), "operations: correspondence", "FAILS" if ph["corr"] else "ok", "| contract", "FAILS" if ph["orac"] else "holds")
     if replay and outs:
         print("replayed:", sy.describe(cases[0], outs[0]))
         print("correspondence", "FAILS" if corr else "ok", "| contract", "FAILS" if orac else "holds")
@@ -60,7 +69,8 @@ def run(tier, seed, replay=None):
         chk.samples = [{"source": grammars.source(c["decl"])[len(grammars.HEADER):], "decider": c["decider"], "observed": {k: o.get("ok", {}).get(k) for k in ("phase", "res", "alts_before", "alts_after")}}
                        for c, o in list(zip(cases, outs))[:: max(1, len(cases) // 4)]][:4]
     cov = {
-        "evaluations": len(cases),
+        "representation_operations": ({"operations": ph["operations"], "errors": ph["errors"], "correspondence_mismatches": len(ph["corr"]), "oracle_failures": len(ph["orac"])} if ph else None),
+        "evaluations": len(cases) + (len(ph["ecs"]) if ph else 0),
         "distinct_nontrivial": flow.distinct_nontrivial(cases, outs or [], nontrivial) if outs else 0,
         "traces_validated_against_impl": len(cases),
         "correspondence_mismatches": len(corr), "oracle_failures": len(orac),
